@@ -20,7 +20,7 @@ use vharness::common::*;
 
 pub const BASE: i64 = 1_700_000_000_000;
 /// receiver's data model: required / nullable / defaulted scalars of several types, references
-pub const MODEL: &str = r#"ns { E1{ name:String, n:Integer nullable, subs:[ns.E2] } E2{ name:String } E3{ name:String default "d", f:Float nullable, b:Boolean nullable, k:Base64 nullable, j:Json nullable, di:Integer default 3, df:Float default 1.5, db:Boolean default true, dk:Base64 default "YWJj", dj:Json default "{}" } }"#;
+pub const MODEL: &str = r#"ns { E1{ name:String, n:Integer nullable, subs:[ns.E2], one:ns.E2 } E2{ name:String } E3{ name:String default "d", f:Float nullable, b:Boolean nullable, k:Base64 nullable, j:Json nullable, di:Integer default 3, df:Float default 1.5, db:Boolean default true, dk:Base64 default "YWJj", dj:Json default "{}" } }"#;
 pub const NKEYS: u64 = 5;
 pub const UNKNOWN_ENT: &str = "zz9";
 pub const MAX_NODE_KB: u64 = 1;
